@@ -1281,7 +1281,10 @@ def witness(a: Rat, b: Rat, seed=0, tries=40, domain=None):
     to the magnitude of the residual's terms) at every tried point.
     ``domain`` maps symbol name -> (lo, hi)."""
     rng = random.Random(seed)
-    resid_n = p_add(p_mul(a.num, b.den), p_mul(b.num, a.den), -1)
+    try:
+        resid_n = p_add(p_mul(a.num, b.den), p_mul(b.num, a.den), -1)
+    except TooBig:
+        resid_n = None      # too large to cross-multiply: compare the two values numerically instead (same sampling discipline)
     constrained = set()          # symbols occurring in a declared unit relation: sampled small so the dependent one is real
     for rep in SQ_RULES.values():
         for m in rep:
@@ -1303,7 +1306,16 @@ def witness(a: Rat, b: Rat, seed=0, tries=40, domain=None):
                     vals[at.id] = rng.uniform(lo, hi) * (1 if (domain and at.name in domain) else rng.choice((1, 1, -1)))
             return vals[at.id]
         cache = {}
-        r, scale = _eval_poly(resid_n, val, cache)
+        if resid_n is None:
+            try:
+                av_, bv_ = evalf(a, val, cache), evalf(b, val, cache)
+            except Exception:
+                continue
+            if av_ != av_ or bv_ != bv_ or abs(av_) == float("inf") or abs(bv_) == float("inf"):
+                continue
+            r, scale = av_ - bv_, max(abs(av_), abs(bv_), 1e-12) * 1e3      # 1e-6 relative: far above rounding of a long evaluation, far below a real difference
+        else:
+            r, scale = _eval_poly(resid_n, val, cache)
         if r != r or scale != scale:
             continue
         # stay inside the declared domain: every polynomial declared positive whose atoms were sampled must be > 0
